@@ -26,6 +26,9 @@ type cacheCase struct {
 	M      string        `json:"m"`
 	Status int           `json:"status"`
 	Probes []int         `json:"probes"`
+	Fault  string        `json:"fault"`
+
+	faulted bool
 }
 
 func casing(name, c string) string {
@@ -102,6 +105,7 @@ type reqObs struct {
 	Label       string `json:"label"`
 	Contacts    int    `json:"contacts"`
 	SameVersion bool   `json:"sameVersion"`
+	Status      int    `json:"status"`
 }
 
 // Cacheability runs the cases; raw is the emitted case (kept verbatim in the observation)
@@ -109,6 +113,11 @@ func Cacheability(w *world.World, raws []json.RawMessage) ([]interface{}, error)
 	w.Configure([]world.DispCfg{{Name: "cc", Size: 0, HfpTTL: 300}})
 	w.Policy = func(ri *world.ReqInfo, req *http.Request) world.Outcome {
 		c := ri.Case.(*cacheCase)
+		if c.Fault == "reset" && !c.faulted {
+			// the origin has the request and breaks the connection instead of answering (once)
+			c.faulted = true
+			return world.Outcome{Kind: "error"}
+		}
 		return world.Outcome{Kind: "raw", Header: c.header(), Status: c.Status}
 	}
 	const t0 = 1000
@@ -140,8 +149,8 @@ func Cacheability(w *world.World, raws []json.RawMessage) ([]interface{}, error)
 		}
 		out = append(out, map[string]interface{}{
 			"case": raw, "i": i, "stored": stored, "hits": hits, "asked": asked,
-			"first":  reqObs{r1.Label, r1.Contacts, true},
-			"second": reqObs{r2.Label, r2.Contacts, r2.Ver == r1.Ver && r1.Ver != 0},
+			"first":  reqObs{r1.Label, r1.Contacts, true, r1.Status},
+			"second": reqObs{r2.Label, r2.Contacts, r2.Ver == r1.Ver && r1.Ver != 0, r2.Status},
 		})
 		w.TakeTrace()
 	}
